@@ -91,7 +91,7 @@ def run(ctx):
             if not pe or len(downs) != 1:
                 ctx.fail('R11.3', 'pointer:shape', 'pointer arm of RdpClient::write no longer builds one ts_pointer_event under one press test', rw.where())
                 continue
-            flags = fold(resolve(st, pe[0][2][0]))
+            flags = fold(fold_enum(P, resolve(st, pe[0][2][0])))
             tbl = [n for n in walk(flags) if n[0] == 'index' and strip(n[1])[0] == 'const' and isinstance(strip(n[1])[2], str) and strip(n[1])[2].startswith('[')]
             if button is None and tbl:
                 # the button flag comes from a constant table indexed by the button (`BUTTON_FLAGS[pointer.button as usize]`): the single path
@@ -139,7 +139,7 @@ def run(ctx):
             if not ke or len(downs) != 1:
                 ctx.fail('R11.3', 'key:shape', 'key arm of RdpClient::write no longer builds one ts_keyboard_event under one press test', rw.where())
                 continue
-            fl = [c for c in walk(fold(resolve(st, ke[0][2][0]))) if c[0] == 'agg' and c[2] == 'Some']
+            fl = [c for c in walk(fold(fold_enum(P, resolve(st, ke[0][2][0])))) if c[0] == 'agg' and c[2] == 'Some']
             fv = fold(fl[0][3][0]) if fl else ('unknown',)
             want = 0 if downs[0] else KBD_RELEASE
             seen_key.add(downs[0])
@@ -177,7 +177,7 @@ def run(ctx):
             nodes = list(walk(f[0].expr))
             if not any(n[0] == 'param' for n in nodes):
                 # a path on which the optional parameter is absent (`match p { None => DEFAULT, .. }`): the field must be a constant
-                if any(n[0] in ('unknown', 'mutated', 'index', 'upd', 'discr', 'deref') or
+                if any(n[0] in ('unknown', 'mutated', 'index', 'upd', 'deref') or
                        (n[0] == 'call' and not re.search(r'Vec::<T>::new$|::to_vec$|::into$|::from$', n[1])) for n in nodes):
                     return False
                 continue
